@@ -95,7 +95,9 @@ class Server:
         data = ("".join(l + "\n" for l in pre_lines) + "".join(l + "\n" for _, l in requests)).encode("utf8")
         fd_in, fd_out = self.p.stdin.fileno(), self.p.stdout.fileno()
         os.set_blocking(fd_in, False)
-        deadline = time.time() + timeout
+        deadline = time.time() + min(timeout, 30 + 3 * len(requests))
+        if HARD_DEADLINE[0] is not None:
+            deadline = min(deadline, max(time.time() + 5, HARD_DEADLINE[0] + 8))
         off = 0
         eof = False
         while len(res) < len(want) and not eof:
@@ -126,6 +128,7 @@ class Server:
         return res
 
 
+HARD_DEADLINE = [None]      # set by main(): no runner request outlives the differential's wall-clock budget by more than a few seconds
 _TLS = threading.local()
 _SERVERS = []
 _SERVERS_LOCK = threading.Lock()
@@ -361,9 +364,9 @@ def classify(p, ref, boa, probe=None):
     def subseq(x, y):
         it = iter(y)
         return all(any(a == b for b in it) for a in x)
-    if "ReferenceError" in rt + rc and len(ra) < len(ba) and subseq(ra, ba):
+    if rc == "T:ReferenceError" and len(ra) < len(ba) and subseq(ra, ba):
         nref_r = max(nref_r, nref_b + 1)        # boa ran on (printed more) where the oracle threw a ReferenceError
-    if "ReferenceError" in bt + bc and len(ba) < len(ra) and subseq(ba, ra):
+    if bc == "T:ReferenceError" and rc != bc and len(ba) < len(ra) and subseq(ba, ra):
         nref_b = max(nref_b, nref_r + 1)
     d1 = first_diff(ref, boa)
     same_shape = bool(d1 and d1[0] == "t" and d1[2] is not None and d1[3] is not None and len(d1[2].split(" ")) == len(d1[3].split(" ")))
@@ -385,6 +388,11 @@ def classify(p, ref, boa, probe=None):
         if lex & _assigned_ids({k: p[k] for k in ("p_funcs", "p_body")}):
             return "tdz-assign-before-init"
         return "tdz-missing"
+    # NaN exponent: the oracle's differing tokens are all NaN
+    if any(b[1] == "BExp" for b in nodes(p, "EBinary") + nodes(p, "EOpAssign")) and same_shape:
+        pairs = [(x, y) for x, y in zip(d1[2].split(" "), d1[3].split(" ")) if x != y]
+        if pairs and all(x == "NaN" for x, _ in pairs):
+            return "exponent-nan"
     # operand read after the right operand's side effect:  x OP (x = ..)
     for b in (nodes(p, "EBinary") + nodes(p, "EOpAssign")) if same_shape else []:
         if b[0] == "EBinary" and b[2][0] == "EId" and tuple(b[2][1]) in _assigned_ids(b[3]):
@@ -407,8 +415,6 @@ def classify(p, ref, boa, probe=None):
             pairs = [(x, y) for x, y in zip(a, b) if x != y]
             if len(a) == len(b) and pairs and all(numberish(x) for x, _ in pairs) and any(y in ("string", "undefined", "object", "boolean", "null", "true", "false", "bigint") or not numberish(y) for _, y in pairs):
                 return "postfix-update-value-not-numeric"
-    if any(b[1] == "BExp" for b in nodes(p, "EBinary") + nodes(p, "EOpAssign")) and (rt + rc).count("NaN") > (bt + bc).count("NaN"):
-        return "exponent-nan"
     if has(p, "ELogAssign"):
         return "logical-assign-operand"
     if bt == rt and bc != rc:
@@ -690,6 +696,8 @@ def process_chunk(run, eng, progs, deadline, tag, shrink_limit):
             p = live[k]
             q, shrunk = p, False
             if shrink_limit > 0:        # corpus programs are minimized already
+                if deadline - time.time() < 0.7 * shrink_limit:
+                    raise Abandoned()       # not enough budget left to minimise (and hence classify) this case properly
                 try:
                     q = shrink.shrink(p, make_pred(eng, d0, deadline), max_rounds=30 if run.quick else 60,
                                       time_limit=min(shrink_limit, max(1.0, deadline - time.time())))
@@ -771,6 +779,7 @@ def main():
         st.add("corpus_programs", len(cprogs))
     t_start = time.time()
     deadline = t_start + budget
+    HARD_DEADLINE[0] = deadline
     # 4b generated programs: chunks in parallel, each processed completely or not at all
     chunk = 40 if run.quick else 100
     n_done = 0
@@ -803,6 +812,7 @@ def main():
             if r is not None:
                 n_done += r[0]
                 merge(r[1])
+    HARD_DEADLINE[0] = None
     run.cov["chunks_abandoned_at_deadline"] = abandoned[0]
     run.cov["programs_generated"] = n_done
     run.cov["programs_target"] = target
